@@ -180,6 +180,7 @@ func cmdCheck(argv []string) {
 				return
 			}
 			defer it.solver.close()
+			it.ownerFilter = id
 			for {
 				mu.Lock()
 				k := next
@@ -559,7 +560,11 @@ func (r *replayer) run(v violation, path string) (string, error) {
 	}
 	cmd := exec.Command("timeout", "-s", "KILL", "20", bin, "-test.run", "^TestVXReplay$", "-test.count=1", "-test.timeout=15s")
 	cmd.Dir = filepath.Join(repoRoot, dir)
-	cmd.Env = append(os.Environ(), "VX_REPLAY="+path)
+	own := ownerOf(v.Msg)
+	if own == "" && strings.HasPrefix(v.Harness, "VX_C") && len(v.Harness) >= 6 {
+		own = v.Harness[3:6]
+	}
+	cmd.Env = append(os.Environ(), "VX_REPLAY="+path, "VX_OWNER="+own)
 	out, _ := cmd.CombinedOutput()
 	return string(out), nil
 }
